@@ -84,6 +84,37 @@ def install(c):
             return v.n > 0
         return old_truth(self, v)
     Interp.truth = truth
+    # ','.join(str(row[0]) for row in rows) over a fetched page -> IN-list hole
+    old_comp = env.symbolic_comprehension
+
+    def comp(it, e, fr):
+        import ast as _ast
+        from pyvc.loops import SymSeq
+        if len(e.generators) == 1 and not e.generators[0].ifs:
+            src = it.eval(e.generators[0].iter, fr)
+            if isinstance(src, SymSeq) and src.tag == 'page':
+                el = e.elt
+                tgt = e.generators[0].target
+                # shape: str(<target>[<const>])
+                if (isinstance(el, _ast.Call) and getattr(el.func, 'id', '') == 'str' and len(el.args) == 1
+                        and isinstance(el.args[0], _ast.Subscript) and isinstance(tgt, _ast.Name)
+                        and getattr(el.args[0].value, 'id', None) == tgt.id
+                        and isinstance(el.args[0].slice, _ast.Constant)):
+                    col = src.stmt['cols'][el.args[0].slice.value]
+                    return PageColumnStrs(src, col)
+                raise Unsupported('comprehension over a fetched page: %s' % _ast.unparse(e))
+        return old_comp(it, e, fr)
+    env.symbolic_comprehension = comp
+    old_join = env.vm_join
+
+    def vm_join(it, o, a, k):
+        if isinstance(a[0], PageColumnStrs) and o == ',':
+            holes = it.st.ghost.setdefault('listholes', {})
+            n = len(holes)
+            holes[n] = (a[0].page, a[0].col)
+            return '\x00L%d\x00' % n
+        return old_join(it, o, a, k)
+    env.vm_join = vm_join
     old_len = env.builtins['len'].impl
 
     def bi_len(it, a, k):
@@ -92,6 +123,14 @@ def install(c):
             return SV('int', a[0].n)
         return old_len(it, a, k)
     env.builtins['len'] = EnvFunc('len', bi_len)
+
+
+class PageColumnStrs:
+    """(str(row[i]) for row in page)"""
+
+    def __init__(self, page, col):
+        self.page = page
+        self.col = col
 
 
 def dbcell_arith(it, op, a, b):
